@@ -11,6 +11,21 @@ CHECKS = {
         text='Generated (tree, selector) pairs over API-built and parser-built trees are compared, by element identity and order, with an independent naive interpreter of the selector AST; a bounded box of all forests <=4 elements x all selectors with <=1 (quick) / <=2 (thorough) combinators over a 12-compound alphabet is enumerated completely. Exploration, not proof: absence is only established inside the box.',
         note='Trusted: bs4/lxml/html5lib as installed, the ~400-line reference matcher (self-tested against hand-written expectations from the Selectors text at start-up), the renderer that turns the AST into selector text.',
         ref='DESIGN.md 3/C01'),
+    'C02': dict(
+        technique='bounded-exhaustive enumeration + property-based differential testing against a by-definition An+B oracle, with spelling metamorphics',
+        text='Every (A,B) in a box x 4 pseudo-classes x 5 "of S" filters x every sibling sequence up to a bound x gap fillings x placements (inside an element, directly under the document, detached root) is compared with position-by-definition + divisibility; random cases reach |A|,|B| <= 10^6 and 30 siblings; every accepted spelling of each (A,B) is checked to mean (A,B). Exhaustive inside the stated box only.',
+        note='Trusted: reference position/divisibility oracle (self-tested), bs4 tree navigation.',
+        ref='DESIGN.md 3/C02'),
+    'C06': dict(
+        technique='property-based fuzzing with grammar-mutation and custom-map generators, plus coverage-guided fuzzing (atheris/libFuzzer) with the semantic oracle inside the target',
+        text='Arbitrary Unicode strings, mutated valid selectors and custom maps (malformed, escaped, case-colliding, cyclic) are compiled; the oracle is the allowed exception set. Exploration over generated strings; says nothing about inputs beyond the nesting bound.',
+        note='Trusted: the exception-classification oracle; NotImplementedError is accepted only when "@" or "::" occurs in the pattern or a custom definition; KeyError only when two custom names collide after lower-casing/un-escaping.',
+        ref='DESIGN.md 3/C06'),
+    'C07': dict(
+        technique='fuzzing with a CPU-time oracle: pumped (prefix, unit^n, suffix) inputs, exhaustive over 1- and 2-token units, Hypothesis-drawn 3-token units, growth-law confirmation in a fresh worker',
+        text='Empirical growth test with a x10^3 margin: a violation is an input of <= 80 characters that costs > 0.5 s CPU and at least quadruples when its length doubles (confirmed twice). Covers compile(), every compiled regex reachable in the package, and the match side (attribute values). Not a complexity proof.',
+        note='Trusted: time.process_time() of a single-threaded killable worker; token alphabet (hand list + literals extracted from every regex with re._parser).',
+        ref='DESIGN.md 3/C07'),
 }
 
 NOT_APPLICABLE = []
